@@ -630,3 +630,133 @@ pub proof fn lemma_inv_shape(s: SS)
     requires inv(s),
     ensures s.cur.len() == s.fs.len(), s.store.len() == s.fs.len(), store_wf(s.store), s.fs.len() <= u32::MAX,
 { reveal(inv); }
+// ================= each stable model is sent once (C05: "each once") =================
+// needs at least one statement: on the empty ADF the empty nogood is not stored and the search sends [] for ever (DESIGN section 7)
+pub open spec fn in_ok(s: SS) -> bool {
+    store_in(s.store, s.fs.len()) && forall|j: int| 0 <= j < s.stack.len() ==> ng_in(&(#[trigger] s.stack[j]).1, s.fs.len())
+}
+pub open spec fn blocked(s: SS, k: int) -> bool {
+    !avoids_all(ta(s.sent[k]), s.store) || (s.bt && k == s.sent.len() - 1 && s.stack.len() > 0 && is_tv(&s.stack.last().1, s.sent[k]))
+}
+pub open spec fn once(s: SS) -> bool {
+    &&& forall|k: int| 0 <= k < s.sent.len() ==> two_valued(#[trigger] s.sent[k]) && s.sent[k].len() == s.fs.len()
+    &&& forall|k1: int, k2: int| 0 <= k1 < k2 < s.sent.len() ==> #[trigger] s.sent[k1] != #[trigger] s.sent[k2]
+    &&& forall|k: int| 0 <= k < s.sent.len() ==> #[trigger] blocked(s, k)
+}
+#[verifier::opaque]
+pub open spec fn inv2(s: SS) -> bool { s.fs.len() <= u32::MAX && s.cur.len() == s.fs.len() && in_ok(s) && (s.fs.len() > 0 ==> once(s)) }
+pub proof fn lemma_tv_in(g: &NoGood, tv: Seq<Term>) requires is_tv(g, tv), ensures ng_in(g, tv.len()) { }
+pub proof fn lemma_self_ext(g: &NoGood, m: Seq<Term>)
+    requires is_tv(g, m), two_valued(m), m.len() <= u32::MAX,
+    ensures ext_of(ta(m), g)
+{ lemma_ext_of_le(g, m, m); }
+pub proof fn lemma_tv_nonempty(g: &NoGood, m: Seq<Term>)
+    requires is_tv(g, m), two_valued(m), 0 < m.len() <= u32::MAX,
+    ensures g.act().len() > 0
+{
+    assert(decided(m[0])); assert(g.act().contains(0u32));
+    if g.act().len() == 0 { assert(g.act() =~= Set::<u32>::empty()); }
+}
+// a settled two-valued interpretation against which the closure found no conflict avoids every stored nogood
+pub proof fn lemma_leaf_avoids(st: Seq<Vec<NoGood>>, cur: Seq<Term>, g: &NoGood)
+    requires store_in(st, cur.len()), two_valued(cur), is_tv(g, cur), none_matches(st, g), cur.len() <= u32::MAX,
+    ensures avoids_all(ta(cur), st)
+{
+    assert forall|b: int, j: int| 0 <= b < st.len() && 0 <= j < st[b]@.len() implies !ext_of(ta(cur), #[trigger] &st[b]@[j]) by {
+        let h = &st[b]@[j];
+        if ext_of(ta(cur), h) {
+            assert(ng_in(h, cur.len()));
+            assert forall|x: u32| h.act().contains(x) implies g.act().contains(x) && (h.val().contains(x) == g.val().contains(x)) by {
+                assert(x < cur.len()); assert(decided(cur[x as int])); assert(ta(cur)(x) == h.val().contains(x));
+            }
+            assert(h.matches(g));
+        }
+    }
+}
+pub open spec fn store_after2(old_st: Seq<Vec<NoGood>>, new_st: Seq<Vec<NoGood>>, ng: &NoGood) -> bool {
+    &&& store_after(old_st, new_st, ng)
+    &&& forall|k: nat| store_in(old_st, k) && ng_in(ng, k) ==> #[trigger] store_in(new_st, k)
+}
+// pushes (choice / propagation) and plain updates keep inv2
+pub proof fn lemma2_push(s: SS, s2: SS, g: NoGood, c2: Seq<Term>, f: bool)
+    requires inv2(s), !s.bt, !s2.bt, is_tv(&g, c2), c2.len() == s.fs.len(), s2.fs == s.fs, s2.cur == c2, s2.store == s.store, s2.sent == s.sent,
+        s2.stack == s.stack.push((f, g)),
+    ensures inv2(s2)
+{
+    reveal(inv2);
+    lemma_tv_in(&g, c2);
+    let k = s.stack.len() as int;
+    assert forall|j: int| 0 <= j < s2.stack.len() implies ng_in(&(#[trigger] s2.stack[j]).1, s2.fs.len()) by { if j < k { assert(s2.stack[j] == s.stack[j]); } }
+    if s.fs.len() > 0 { assert forall|q: int| 0 <= q < s2.sent.len() implies #[trigger] blocked(s2, q) by { assert(blocked(s, q)); } }
+}
+pub proof fn lemma2_same(s: SS, s2: SS)
+    requires inv2(s), !s.bt, s2.fs == s.fs, s2.cur.len() == s.cur.len(), s2.stack == s.stack, s2.store == s.store, s2.sent == s.sent,
+    ensures inv2(s2)
+{
+    reveal(inv2);
+    if s.fs.len() > 0 { assert forall|q: int| 0 <= q < s2.sent.len() implies #[trigger] blocked(s2, q) by { assert(blocked(s, q)); } }
+}
+pub proof fn lemma2_resume(s: SS)
+    requires inv2(s), s.bt, s.stack.len() == 0,
+    ensures inv2(t_resume(s))
+{
+    reveal(inv2);
+    let s2 = t_resume(s);
+    if s.fs.len() > 0 { assert forall|q: int| 0 <= q < s2.sent.len() implies #[trigger] blocked(s2, q) by { assert(blocked(s, q)); } }
+}
+pub proof fn lemma2_leaf(s: SS, g: NoGood, send: bool)
+    requires inv2(s), !s.bt, two_valued(s.cur), is_tv(&g, s.cur), s.fs.len() > 0 ==> avoids_all(ta(s.cur), s.store),
+    ensures inv2(t_leaf(s, g, send))
+{
+    reveal(inv2);
+    let s2 = t_leaf(s, g, send);
+    lemma_tv_in(&g, s.cur);
+    let k = s.stack.len() as int;
+    assert forall|j: int| 0 <= j < s2.stack.len() implies ng_in(&(#[trigger] s2.stack[j]).1, s2.fs.len()) by { if j < k { assert(s2.stack[j] == s.stack[j]); } }
+    if s.fs.len() > 0 {
+        let ns = s.sent.len() as int;
+        assert forall|q: int| 0 <= q < s2.sent.len() implies two_valued(#[trigger] s2.sent[q]) && s2.sent[q].len() == s2.fs.len() by { if q < ns { assert(s2.sent[q] == s.sent[q]); } }
+        assert forall|k1: int, k2: int| 0 <= k1 < k2 < s2.sent.len() implies #[trigger] s2.sent[k1] != #[trigger] s2.sent[k2] by {
+            assert(s2.sent[k1] == s.sent[k1]);
+            if k2 < ns { assert(s2.sent[k2] == s.sent[k2]); } else { assert(blocked(s, k1)); }
+        }
+        assert forall|q: int| 0 <= q < s2.sent.len() implies #[trigger] blocked(s2, q) by {
+            if q < ns { assert(s2.sent[q] == s.sent[q]); assert(blocked(s, q)); } else { assert(s2.stack.last().1 == g); }
+        }
+    }
+}
+pub proof fn lemma2_pop(s: SS, st2: Seq<Vec<NoGood>>, s2: SS)
+    requires inv2(s), s.bt, s.stack.len() > 0, store_after2(s.store, st2, &s.stack.last().1),
+        s2 == t_pop(s, st2) || (s.hist.len() > 0 && s.hist.last().len() == s.fs.len() && s2 == t_pop_choice(s, st2)),
+    ensures inv2(s2)
+{
+    reveal(inv2);
+    let top = s.stack.len() - 1;
+    assert(ng_in(&s.stack[top].1, s.fs.len()));
+    assert forall|j: int| 0 <= j < s2.stack.len() implies ng_in(&(#[trigger] s2.stack[j]).1, s2.fs.len()) by { assert(s2.stack[j] == s.stack[j]); }
+    if s.fs.len() > 0 {
+        assert forall|q: int| 0 <= q < s2.sent.len() implies #[trigger] blocked(s2, q) by {
+            assert(blocked(s, q));
+            let m = s.sent[q];
+            if !avoids_all(ta(m), s.store) {
+                if s.stack[top].1.act().len() > 0 { assert(avoids_all(ta(m), st2) == (avoids_all(ta(m), s.store) && !ext_of(ta(m), &s.stack[top].1))); }
+            } else {
+                assert(is_tv(&s.stack[top].1, m));
+                lemma_tv_nonempty(&s.stack[top].1, m); lemma_self_ext(&s.stack[top].1, m);
+                assert(avoids_all(ta(m), st2) == (avoids_all(ta(m), s.store) && !ext_of(ta(m), &s.stack[top].1)));
+            }
+        }
+    }
+}
+pub proof fn lemma2_init(fs: Seq<BF>, c: Seq<Term>, st: Seq<Vec<NoGood>>)
+    requires fs.len() <= u32::MAX, c.len() == fs.len(), forall|b: int| 0 <= b < st.len() ==> (#[trigger] st[b])@.len() == 0,
+    ensures inv2(s_init(fs, c, st))
+{ reveal(inv2); }
+pub proof fn lemma2_once(s: SS)
+    requires inv2(s), s.fs.len() > 0,
+    ensures forall|k1: int, k2: int| 0 <= k1 < k2 < s.sent.len() ==> #[trigger] s.sent[k1] != #[trigger] s.sent[k2]
+{ reveal(inv2); }
+pub proof fn lemma2_shape(s: SS)
+    requires inv2(s),
+    ensures store_in(s.store, s.fs.len()), s.stack.len() > 0 ==> ng_in(&s.stack.last().1, s.fs.len())
+{ reveal(inv2); if s.stack.len() > 0 { assert(ng_in(&s.stack[s.stack.len() - 1].1, s.fs.len())); } }
